@@ -80,7 +80,10 @@ struct C14 : Profile {
   void fill_text(json& plan) {
     const json& ast = plan["ast"];
     std::vector<json> setup; for (auto& s : ast["prelude"]) setup.push_back(s); for (auto& s : ast["funcs"]) setup.push_back(s);
-    std::vector<json> body; for (auto& s : ast["body"]) body.push_back(s);
+    std::vector<json> body;
+    // a function of the shared setup declared again by the concurrently running program: every context installs the new body for itself only
+    if (plan.value("redeclare", false) && !ast["funcs"].empty()) { json f = ast["funcs"][0]; json nb = json::array(); nb.push_back(json{{"k", "print"}, {"es", json::array({json{{"k", "str"}, {"v", "redeclared"}}})}}); for (auto& s : f["body"]) nb.push_back(s); f["body"] = nb; body.push_back(f); }
+    for (auto& s : ast["body"]) body.push_back(s);
     plan["text_setup"] = enc(print_statements(setup)); plan["text_body"] = enc(print_statements(body));
   }
 
@@ -93,7 +96,7 @@ struct C14 : Profile {
     Rng gr(subseed(runseed(vseed, runno), "gen"));
     GenProgram p = gen_program(gr, k);
     strip_object_state(p.ast);
-    plan["ast"] = p.ast; fill_text(plan);
+    plan["ast"] = p.ast; plan["redeclare"] = r.chance(0.3); fill_text(plan);
     int maxt = tier == "thorough" ? 8 : 4;
     int nt = (int)r.range(2, r.chance(0.7) ? 3 : maxt);
     plan["ntasks"] = nt;
@@ -103,6 +106,9 @@ struct C14 : Profile {
     for (int i = 0; i < nsw; ++i) { sw.push_back(json::array({at, (long)sr.below(nt + 1)})); at += sr.chance(0.3) ? sr.range(1, 4) : sr.range(1, 80); }
     plan["switches"] = sw;
     plan["yield_alloc"] = sr.chance(0.5);
+    // finer interleavings: every debug trace point of the library (value / handle constructors and destructors, symbol updates) is a scheduling point too
+    plan["yield_trace"] = sr.chance(0.35);
+    if (plan["yield_trace"].get<bool>()) { for (auto& w : sw) w[0] = w[0].get<long>() * (long)sr.pick(std::vector<long>{1, 4, 16}) + sr.range(0, 15); plan["switches"] = sw; }
     // faults per task
     Rng fr(subseed(runseed(vseed, runno), "fault"));
     json faults = json::array();
@@ -190,6 +196,7 @@ struct C14 : Profile {
     Hooks hooks; const bool yield_alloc = plan.value("yield_alloc", false);
     hooks.on_statement = [](bloc::Context&, const bloc::Statement*) { Sched::yield(); };
     if (yield_alloc) hooks.on_allocate = [](bloc::Context&) { Sched::yield(); };
+    if (plan.value("yield_trace", false)) { hooks.on_trace = []() { Sched::yield(); }; ++res.probes["plans_with_trace_point_yields"]; }
     hooks.install();
     Sched sched; std::vector<int> done(nt, 0); bool life_ran = false;
     for (int t = 0; t < nt; ++t) sched.add([&, t]() { got[t] = run_in(*clones[t], *caps[t], be); done[t] = 1; });
@@ -259,6 +266,8 @@ struct C14 : Profile {
     if (plan.value("life", "none") != "none") { json p = plan; p["life"] = "none"; v.push_back(p); }
     if (plan.value("pre_run", false)) { json p = plan; p["pre_run"] = false; v.push_back(p); }
     if (plan.value("yield_alloc", false)) { json p = plan; p["yield_alloc"] = false; v.push_back(p); }
+    if (plan.value("yield_trace", false)) { json p = plan; p["yield_trace"] = false; v.push_back(p); }
+    if (plan.value("redeclare", false)) { json p = plan; p["redeclare"] = false; fill_text(p); v.push_back(p); }
     if (plan.value("ntasks", 2) > 2) { json p = plan; p["ntasks"] = plan.value("ntasks", 2) - 1; json nf = json::array(); for (auto& x : p["faults"]) if (x.value("task", 0) < p["ntasks"].get<int>()) nf.push_back(x); p["faults"] = nf; v.push_back(p); }
     if (plan.contains("ast")) for (json& a : shrink_ast(plan["ast"])) { json p = plan; p["ast"] = a; fill_text(p); v.push_back(p); if (v.size() > 250) break; }
     return v;
